@@ -106,6 +106,10 @@ pub const TEXT_POOL: &[&str] = &[
     "abc", "Re:Zero", "x y", "[General]", "osu file format v9", "\u{4e0a}", "q\"q", "a,b", "1", "Tags tags", "\u{e9}", "|", "a/b", ": :",
     "\u{a0}z", "\u{3042}\u{3044}", "e\u{301}", "\u{1F3B5}", "[HitObjects]", "0,0,\"bg\"", "Mode: 3", "\u{10a}\u{a00}", "-", "#1", "(TV Size)",
     "\u{212a}\u{212a}.avi", "\u{130}\u{130}.AVI", "\u{212a}.mp4",
+    // storyboard variables, words with a meaning elsewhere in the osu! ecosystem
+    "$bg", "$t", "virtual", "none", "None", "default", "null", "auto", "true", "0", "-1",
+    // UTF-16BE: bytes 00 0D 00 0A at an odd offset
+    "\u{100}\u{d00}\u{a15}",
 ];
 
 pub fn gen_text(t: &mut Tape, file: bool, avoid: Avoid) -> String {
@@ -278,9 +282,18 @@ pub fn gen_events(t: &mut Tape, avoid: Avoid) -> Vec<String> {
 
 pub fn gen_colours(t: &mut Tape) -> Vec<String> {
     let mut v = vec![];
-    let n = t.below(5);
-    for i in 0..n {
-        v.push(format!("Combo{} : {},{},{}", i + 1, t.below(256), t.below(256), t.below(256)));
+    if t.chance(10) {
+        // exactly the crate's public default palette (or its first entries): an explicit list that happens to
+        // equal a default is still an explicit list
+        let k = *t.pick(&[4usize, 4, 2, 1]);
+        for (i, c) in rosu_map::section::colors::Colors::DEFAULT_COMBO_COLORS.iter().take(k).enumerate() {
+            v.push(format!("Combo{} : {},{},{}", i + 1, c.red(), c.green(), c.blue()));
+        }
+    } else {
+        let n = t.below(5);
+        for i in 0..n {
+            v.push(format!("Combo{} : {},{},{}", i + 1, t.below(256), t.below(256), t.below(256)));
+        }
     }
     if t.chance(30) {
         v.push(format!("SliderBorder: {},{},{},7", t.below(256), t.below(256), t.below(256)));
@@ -510,6 +523,7 @@ pub fn gen_accepted(t: &mut Tape, avoid: Avoid, max_objects: usize) -> Doc {
 pub const GARBAGE: &[&str] = &[
     "", "   ", "// comment", "garbage", ",,,,", ":", "::::", "[Unknown]", "[general]", "[]", "key: value", "1,2,3", "-", "\u{feff}x", "|||", "0:0:0:0:",
     "x,y,z,1,0", "NaN,NaN,NaN,1,0", "9999999999999999999999", "1e400,1e400,0,1,0", "256,192,0,12,0,99999999999", "a:b|c:d", "osu file format v14",
+    "[Variables]", "$bg=real bg.jpg", "$t=1234", "0,0,\"$bg\",0,0", "2,$t,5000", "Video,$t,\"$bg\"",
     "osu file format v-1", "Combo1: 300,0,0", "\t\t", "\u{0}", "100,100,0,2,0,B|,1,1", "100,100,0,2,0,|||,1,1", "100,100,0,2,0,B|1:1|B|2:2|B|3:3|B|4:4,1,1",
 ];
 
@@ -525,6 +539,10 @@ pub fn gen_hostile(t: &mut Tape, max_objects: usize) -> Doc {
         3 => format!("osu file format v{}", t.int(-5, 200)),
         _ => "\u{feff}osu file format v14".to_string(),
     };
+    // a [Variables] section (storyboard variables) ahead of everything else: no decoder may substitute them
+    if t.chance(10) {
+        doc.version_line.push_str("\n\n[Variables]\n$bg=real bg.jpg\n$t=1234\n$x=[HitObjects]\n");
+    }
     // hostile records per section
     let mut clock_tp = -500.0;
     let mut clock_ho = 0i64;
@@ -806,6 +824,8 @@ pub const ODD_NUMBERS: &[&str] = &[
     "Infinity", "infinity", "-Infinity", "INF", "nan", "NAN", "-nan", "1f", "1d", "1.5e3", "2.5E-1", "1e308", "1e309", "-1e309", "4e-324", "1e-400", "0.1e1", "100.", "100.0000000000001",
     "2147483647", "2147483648", "-2147483648", "-2147483649", "2147483647.5", "2147483520", "2147483583", "16777217", "9007199254740993", "99999999999999999999", "0.30000000000000004",
     "1 2", "1\t", "\t1", "--1", "+-1", "1+", "1-", "1.2.3", "1,", "", " ",
+    // just inside / outside the limits by a fraction (a limit tested after rounding or truncation would move)
+    "2147483647.25", "-2147483647.25", "2147483646.5", "2147483647.75", "131071.5", "131072.25", "-131072.25", "131072.75", "9000.4", "9000.5", "0.5", "-0.5", "1.5", "2.5", "-1.5",
 ];
 
 pub fn odd_number(t: &mut Tape) -> &'static str {
